@@ -3,6 +3,10 @@
 package drivers
 
 import (
+	sdkmath "cosmossdk.io/math"
+	evertypes "github.com/EscanBE/evermint/v12/types"
+	codectypes "github.com/cosmos/cosmos-sdk/codec/types"
+
 	"encoding/hex"
 	"fmt"
 	"math/big"
@@ -664,7 +668,14 @@ func (w *World) GenCosmosSend(nextNonce map[string]uint64, baseFee int64) ([]byt
 
 func genOneEthTx(out *trace.W, tbl *prog.Table, r *rand.Rand, tid string, blocks int, stats map[string]int) {
 	plan := NewGovPlan(r, blocks)
+	// a third of the histories start with traffic in block 1, the only block in which the configured minimum gas price can
+	// be above the base fee (the fee market lifts the base fee when the block ends)
+	first := r.Intn(3) == 0
 	w, o := NewEthWorld(tbl, r, tid, func(o *chain.Opts) {
+		o.SkipFirstBlock = first
+		if first && r.Intn(2) == 0 {
+			o.MinGasPrice = fmt.Sprintf("%d.5", o.BaseFee+1+int64(r.Intn(6)))
+		}
 		if plan != nil {
 			o.Patch = GovPatch
 			if o.MaxGas >= 0 && o.MaxGas < 350000 {
@@ -673,8 +684,20 @@ func genOneEthTx(out *trace.W, tbl *prog.Table, r *rand.Rand, tid string, blocks
 		}
 	})
 	c := w.C
+	var twin *chain.Chain
+	if first {
+		// the chain itself is unreadable before its first commit: an instance that ran an EMPTY block 1 stands in for it while
+		// block 1 is put together (an empty block changes nothing the transactions or the projection depend on, except that
+		// its fee market step already lifted the base fee)
+		twin = c.Replica(func(o *chain.Opts) { o.SkipFirstBlock = false })
+		w.C = twin
+		stats["histories-with-traffic-in-block-1"]++
+	}
 
 	g := w.Project()
+	if first {
+		g["baseFee"] = o.BaseFee
+	}
 	g["ev"] = "Genesis"
 	g["tid"] = tid
 	g["minGP"] = floorDec(o.MinGasPrice)
@@ -694,6 +717,9 @@ func genOneEthTx(out *trace.W, tbl *prog.Table, r *rand.Rand, tid string, blocks
 		if r.Intn(6) == 0 {
 			n = 0
 		}
+		if plan != nil && plan.EthMsg && b == plan.At+2 && n < 2 {
+			n = 2 // the block whose gov end-blocker executes the proposal's Ethereum message also carries ordinary traffic
+		}
 		type pend struct {
 			kind      string
 			t         trace.M
@@ -705,13 +731,32 @@ func genOneEthTx(out *trace.W, tbl *prog.Table, r *rand.Rand, tid string, blocks
 		var ps []pend
 		// nonces advance inside the block for consecutive txs of the same sender
 		nextNonce := map[string]uint64{}
-		baseFee := c.BaseFee().Int64()
+		var baseFee int64
+		if twin != nil && b == 0 {
+			baseFee = o.BaseFee
+		} else {
+			baseFee = c.BaseFee().Int64()
+		}
 		govIdx := -1
 		if bz, t := w.govTx(plan, b, nextNonce, baseFee); bz != nil {
 			govIdx = len(txs)
 			txs = append(txs, bz)
 			ps = append(ps, pend{kind: "Cosmos", t: t})
 			stats["gov-tx"]++
+			if plan.Replay && b == plan.At {
+				stats["gov-carries-executed-eth-tx"]++
+			} else if plan.EthMsg && b == plan.At {
+				stats["gov-carries-unaffordable-eth-tx"]++
+			}
+		}
+		if b == 0 && w.MinGP() > baseFee {
+			// the only time the global minimum gas price can exceed the base fee while transactions run is the first block
+			// (the fee market lifts the base fee at its end): a dynamic-fee Cosmos transaction whose cap clears the floor
+			// while base fee + tip does not
+			bz, t := w.genCosmosSendOpt(nextNonce, baseFee, true)
+			txs = append(txs, bz)
+			ps = append(ps, pend{kind: "Cosmos", t: t})
+			stats["cosmos-dynfee-under-min-gas-price"]++
 		}
 		for i := 0; i < n; i++ {
 			if r.Intn(6) == 0 {
@@ -734,7 +779,23 @@ func genOneEthTx(out *trace.W, tbl *prog.Table, r *rand.Rand, tid string, blocks
 			ps = append(ps, pend{kind: "Eth", t: t, intrinsic: ig, key: obs.TxKey(bz), class: s.Class})
 			sent = append(sent, sentTx{bz: bz, t: t, intrinsic: ig})
 		}
+		if plan != nil && plan.EthMsg && b == plan.At+2 {
+			// the last Ethereum transaction of the block whose gov end-blocker runs the proposal's Ethereum message is an
+			// ordinary valid one: whatever per-transaction state the ante handler leaves behind is what the router path meets
+			for try := 0; try < 40; try++ {
+				s := w.genEthSpec(nextNonce, baseFee, &created)
+				if s.Class != "valid" || s.To == "create" {
+					continue
+				}
+				bz, t, ig, _ := w.BuildEth(s)
+				txs = append(txs, bz)
+				ps = append(ps, pend{kind: "Eth", t: t, intrinsic: ig, key: obs.TxKey(bz), class: s.Class})
+				sent = append(sent, sentTx{bz: bz, t: t, intrinsic: ig})
+				break
+			}
+		}
 		obs.Drain()
+		w.C = c // (block 1 was put together on the stand-in)
 		h := c.Height + 1
 		out.Emit(trace.M{"ev": "Begin", "h": h, "time": h * chain.BlockSecs})
 		bo := c.Deliver(txs...)
@@ -758,6 +819,9 @@ func genOneEthTx(out *trace.W, tbl *prog.Table, r *rand.Rand, tid string, blocks
 				continue
 			}
 			oo, rr := w.ObserveEth(res, execs[p.key], p.intrinsic)
+			if res.Code == 0 && plan != nil {
+				plan.Executed = append(plan.Executed, txs[i]) // executed once: its nonce is spent
+			}
 			out.Emit(trace.M{"ev": "Eth", "t": p.t, "o": oo, "r": rr, "class": "any", "aim": p.class})
 			stats["eth"]++
 		}
@@ -816,6 +880,11 @@ func floorDec(s string) int64 {
 func pick[T any](r *rand.Rand, xs ...T) T { return xs[r.Intn(len(xs))] }
 
 func (w *World) genCosmosSend(nextNonce map[string]uint64, baseFee int64) ([]byte, trace.M) {
+	return w.genCosmosSendOpt(nextNonce, baseFee, false)
+}
+
+// genCosmosSendOpt: forceDyn = a well-formed transaction with the dynamic-fee extension whose cap is at least the floor.
+func (w *World) genCosmosSendOpt(nextNonce map[string]uint64, baseFee int64, forceDyn bool) ([]byte, trace.M) {
 	r := w.R
 	i := r.Intn(len(w.C.Accts))
 	from := w.C.Accts[i]
@@ -842,23 +911,47 @@ func (w *World) genCosmosSend(nextNonce map[string]uint64, baseFee int64) ([]byt
 		price = minp
 	}
 	bad := r.Intn(10) == 0
+	if forceDyn {
+		useSeq, bad = seq, false
+		price = maxI(baseFee, w.MinGP()) + int64(r.Intn(2))
+		amount = int64(1 + r.Intn(20))
+	}
 	msg := banktypes.NewMsgSend(from.Acc(), w.U.A(toName).Bytes(), sdk.NewCoins(sdk.NewInt64Coin(chain.Denom, amount)))
 	if amount == 0 {
 		amount = 1
 		msg = banktypes.NewMsgSend(from.Acc(), w.U.A(toName).Bytes(), sdk.NewCoins(sdk.NewInt64Coin(chain.Denom, amount)))
 	}
-	bz, err := w.C.CosmosTx(from, []sdk.Msg{msg}, chain.CosmosTxOpts{Gas: gas, GasPrice: price, Seq: &useSeq, BadSig: bad})
+	// a quarter of the Cosmos-lane transactions carry ExtensionOptionDynamicFeeTx: the declared fee is a cap, the price paid
+	// is min(base fee + tip, cap) - and it is THAT price the floor applies to
+	tip := int64(-1)
+	var ext []*codectypes.Any
+	if r.Intn(4) == 0 || forceDyn {
+		tip = int64(r.Intn(3))
+		if d := w.MinGP() - baseFee; forceDyn && d > 0 {
+			tip = int64(r.Intn(int(d))) // base fee + tip stays under the minimum gas price
+		}
+		price += int64(r.Intn(4))
+		any, err := codectypes.NewAnyWithValue(&evertypes.ExtensionOptionDynamicFeeTx{MaxPriorityPrice: sdkmath.NewInt(tip)})
+		if err != nil {
+			panic(err)
+		}
+		ext = []*codectypes.Any{any}
+	}
+	bz, err := w.C.CosmosTx(from, []sdk.Msg{msg}, chain.CosmosTxOpts{Gas: gas, GasPrice: price, Seq: &useSeq, BadSig: bad, ExtOpts: ext})
 	if err != nil {
 		panic(err)
 	}
 	if useSeq == seq && !bad {
 		// predicted admission is the spec's business; the driver only tracks its best guess for nonces
-		fee := int64(gas) * price
-		if price >= maxI(baseFee, w.MinGP()) && w.C.Bal(from.Addr, chain.Denom).Int64() >= fee {
+		eff := price
+		if tip >= 0 && baseFee+tip < price {
+			eff = baseFee + tip
+		}
+		if eff >= maxI(baseFee, w.MinGP()) && eff > 0 && w.C.Bal(from.Addr, chain.Denom).Int64() >= int64(gas)*eff {
 			nextNonce[fname] = seq + 1
 		}
 	}
-	return bz, trace.M{"from": fname, "seqno": trace.U(useSeq), "gas": trace.U(gas), "fee": int64(gas) * price, "to": toName, "amount": amount, "sigok": !bad}
+	return bz, trace.M{"from": fname, "seqno": trace.U(useSeq), "gas": trace.U(gas), "fee": int64(gas) * price, "to": toName, "amount": amount, "sigok": !bad, "tip": tip}
 }
 
 func maxI(a, b int64) int64 {
